@@ -176,7 +176,13 @@ def _chunk(forms):
     return evals, nontriv, bad[:20], known, known2
 
 
+def PROOFS():
+    T = "formulae.terms.terms."
+    return [("vf.contracts.terms_c", [T + "Term.__init__", T + "Term.__eq__"])]
+
+
 def run(report, findings):
+    checklib.run_proofs(report, "C02", PROOFS())
     rng = random.Random(common.seed())
     forms = sorted(set(formulas(report.tier, rng)))
     chunks = [forms[i::64] for i in range(64)]
